@@ -28,7 +28,7 @@ COOKIE = b'00112233445566778899aabbccddeeff0011223344556677'
 SERVER_CHALLENGE = b'feedface0123'
 
 SYMS = ['REJECTED', 'REJECTED_mechs', 'ERROR', 'ERROR_text', 'OK_guid', 'OK', 'OK_badhex', 'OK_spaced', 'DATA', 'DATA_cookie',
-        'DATA_junkhex', 'AGREE_UNIX_FD', 'junk', 'junk_lower', 'empty']
+        'DATA_junkhex', 'DATA_cookie_noid', 'DATA_cookie_noctx', 'AGREE_UNIX_FD', 'junk', 'junk_lower', 'empty']
 
 LINE = {
     'REJECTED': b'REJECTED',
@@ -42,12 +42,16 @@ LINE = {
     'DATA': b'DATA',
     'DATA_cookie': b'DATA ' + binascii.hexlify(COOKIE_CTX + b' ' + COOKIE_ID + b' ' + SERVER_CHALLENGE),
     'DATA_junkhex': b'DATA ' + binascii.hexlify(b'what is this'),
+    # well-formed challenges the client cannot answer: the keyring file has no such id / there is no such keyring file
+    'DATA_cookie_noid': b'DATA ' + binascii.hexlify(COOKIE_CTX + b' 999999 ' + SERVER_CHALLENGE),
+    'DATA_cookie_noctx': b'DATA ' + binascii.hexlify(b'no_such_context ' + COOKIE_ID + b' ' + SERVER_CHALLENGE),
     'AGREE_UNIX_FD': b'AGREE_UNIX_FD',
     'junk': b'HELLO there',
     'junk_lower': b'ok ' + GUID,
     'empty': b'',
 }
 IN_PROTOCOL = {'REJECTED', 'REJECTED_mechs', 'ERROR', 'ERROR_text', 'OK_guid', 'DATA', 'DATA_cookie', 'DATA_junkhex',
+               'DATA_cookie_noid', 'DATA_cookie_noctx',
                'AGREE_UNIX_FD'}
 
 
